@@ -294,6 +294,7 @@ def run(chk):
     user_names(chk)
     compose.run(chk, "types")
     compose.run_members(chk, "types")
+    compose.run_variants(chk, "types")
     # MC_C09_imported (shared with C09): a user type of ANOTHER crate keeps its (declared) name at its only reference, whatever the
     # shape of the type expression around it (folder output)
     from .c09 import imported
@@ -306,7 +307,7 @@ def replay(chk, rec):
         imported(chk)
         chk.mismatches = {k: v for k, v in chk.mismatches.items() if k == rec["signature"]}
         return
-    if "compose" in rec.get("case", {}):
+    if any(k in rec.get("case", {}) for k in ("compose", "members", "variants")):
         return compose.replay(chk, rec, "types")
     if "src" in rec["case"]:
         generic_orders(chk)
